@@ -56,7 +56,7 @@ def r2(c):
     # tx id match
     def is_recv(o):
         s = q.sem(b, o)
-        return s.kind == 'call' and s.cs is nf and any('tx_id' in p for p in s.proj) and ':Some' in ''.join(s.proj)
+        return s.kind == 'call' and s.cs is nf and any('tx_id' in p for p in s.proj) and q.has_success(s.proj)
     opt = [(e, v) for e, v, info in b.variant_edges('core::option::Option') if q.sem(b, info['place']).kind == 'call' and q.sem(b, info['place']).cs is nf and any('tx_id' in p for p in q.sem(b, info['place']).proj)]
     none = [e for e, v in opt if v == 'None']
     some = [e for e, v in opt if v == 'Some']
